@@ -49,7 +49,7 @@ From TarpcV Require Import TimerWheel Server ServerMon ServerFuel ServerProps Se
    transport has reported end of stream and nothing is tracked any more (no timer, no queued
    server-side cancel).  (The full monitor - the Requests stream ends only after inbound EOF, no
    request in flight and a completed flush after the last write - is ServerSpec.stmt_s10; it runs
-   on the real traces on every run.) *)
+   on the real traces on every run and is proved below: C10_server_monitor.) *)
 Theorem C10_server_base_end : forall (T : Type) (tp : transport T response cmsg) f (s s' : @sstate T),
   base_poll_next tp f s = (PEnd, s') ->
   s_fused s' = true /\ s_timers s' = [] /\ s_cancels s' = [].
